@@ -1,1 +1,200 @@
-/-! C15 — property theorems (stub: nothing proved yet). -/
+import B6.Lemmas.RefOverlay
+/-!
+# C15 — Reference queries return the current referrers and always terminate
+
+Model: `B6.Model.RefIndex` (ingest/features.go `FeatureReferencesByID`, ingest/mutable.go
+`BasicMutableWorld` / `MutableOverlayWorld` reference maintenance and queries), mirroring the code
+*after* the three repairs in /verif/fixes/C15-*.patch.  Spec: `B6.Spec.Referrers.ReachPlus`.
+
+* `refs_index_inv`          the index is the inverse of `References()` after ANY disciplined history
+                            of `AddFeature` / `RemoveFeature` (the in-loop slice deletion never panics)
+* `find_refs_terminates`    `FindReferences` terminates on EVERY index (cycles, self references)
+* `find_refs_spec`          … and returns exactly the transitive referrers in the current feature set,
+                            on every graph (not only acyclic ones), each once at the world level
+* `overlay_find_refs_spec`  the same for `MutableOverlayWorld.FindReferences` over a base world,
+                            under the copy discipline of `AddFeature` (`UpClosed`)
+* `cycle_diverges`          the code BEFORE the repair: no fuel suffices on a 2-cycle of relations
+* `stale_base_referrer_counterexample`  the code BEFORE the second repair returns a base referrer
+                            that the overlay replaced
+-/
+namespace B6.Props.C15
+open B6.Model.RefIndex B6.Spec.Referrers B6.Lemmas.RefIndex B6.Lemmas.RefDfs B6.Lemmas.RefOverlay
+
+/-! ## histories of the bare index -/
+
+inductive Op where
+  | add (f : Feature)
+  | rm (f : Feature)
+
+def run : Index × List Feature → List Op → Option (Index × List Feature)
+  | st, [] => some st
+  | (ix, fs), .add f :: ops => run (addFeature ix f, f :: fs) ops
+  | (ix, fs), .rm f :: ops =>
+    match removeFeature ix f with
+    | some ix' => run (ix', fs.filter fun g => decide (g.id ≠ f.id)) ops
+    | none => none
+
+/-- the discipline of `ModifiedFeatures.Update`: a feature is added when its ID is not indexed, and the
+version removed is the version that was added. -/
+def Disciplined : List Feature → List Op → Prop
+  | _, [] => True
+  | fs, .add f :: ops => hasFeature fs f.id = false ∧ Disciplined (f :: fs) ops
+  | fs, .rm f :: ops => f ∈ fs ∧ Disciplined (fs.filter fun g => decide (g.id ≠ f.id)) ops
+
+def UniqueIds (fs : List Feature) : Prop := ∀ g ∈ fs, ∀ h ∈ fs, g.id = h.id → g = h
+
+theorem run_inv : ∀ (ops : List Op) (ix : Index) (fs : List Feature), Inv ix fs → UniqueIds fs →
+    Disciplined fs ops → ∃ ix' fs', run (ix, fs) ops = some (ix', fs') ∧ Inv ix' fs' ∧ UniqueIds fs' := by
+  intro ops
+  induction ops with
+  | nil => intro ix fs hi hu _; exact ⟨ix, fs, rfl, hi, hu⟩
+  | cons op ops ih =>
+    intro ix fs hi hu hd
+    cases op with
+    | add f =>
+      obtain ⟨hfresh, hd⟩ := hd
+      simp only [run]
+      apply ih _ _ (Inv_add hi f) _ hd
+      intro g hg h hh e
+      have hno : ∀ x ∈ fs, x.id ≠ f.id := by
+        intro x hx ex
+        have := (hasFeature_iff fs f.id).mpr ⟨x, hx, ex⟩
+        rw [hfresh] at this; cases this
+      rcases List.mem_cons.mp hg with hg1 | hg1
+      · rcases List.mem_cons.mp hh with hh1 | hh1
+        · rw [hg1, hh1]
+        · rw [hg1] at e; exact absurd e.symm (hno h hh1)
+      · rcases List.mem_cons.mp hh with hh1 | hh1
+        · rw [hh1] at e; exact absurd e (hno g hg1)
+        · exact hu g hg1 h hh1 e
+    | rm f =>
+      obtain ⟨hmem, hd⟩ := hd
+      obtain ⟨ix', h1, h2⟩ := Inv_remove hi f (fun g hg e => hu g hg f hmem e)
+      simp only [run, h1]
+      apply ih _ _ h2 _ hd
+      intro g hg h hh e
+      exact hu g (List.mem_filter.mp hg).1 h (List.mem_filter.mp hh).1 e
+
+/-- **refs_index_inv.** After any disciplined history of `AddFeature`/`RemoveFeature` on an empty
+index, `RemoveFeature` never panicked, and the index holds, for every target, exactly the IDs of the
+current features whose `References()` contain the target — one entry each. -/
+theorem refs_index_inv (ops : List Op) (hd : Disciplined [] ops) :
+    ∃ ix fs, run ([], []) ops = some (ix, fs) ∧
+      (∀ t s, s ∈ (entries ix t).map (·.src) ↔ Refers fs t s) ∧
+      (∀ t, ((entries ix t).map (·.src)).Nodup) := by
+  obtain ⟨ix, fs, h, hi, _⟩ := run_inv ops [] [] Inv_empty (by intro g hg; cases hg) hd
+  exact ⟨ix, fs, h, hi.1, hi.2⟩
+
+/-- non-vacuity: add a closed path, an area over it, replace the path by another version -/
+example : Disciplined [] [.add ⟨(1, 10), [(0, 1), (0, 2), (0, 3), (0, 1)]⟩, .add ⟨(2, 20), [(1, 10)]⟩,
+    .rm ⟨(1, 10), [(0, 1), (0, 2), (0, 3), (0, 1)]⟩, .add ⟨(1, 10), [(0, 2), (0, 3), (0, 4), (0, 2)]⟩] :=
+  ⟨by decide, by decide, by decide, by decide, trivial⟩
+
+/-! ## queries -/
+
+/-- **find_refs_terminates.** `FeatureReferencesByID.FindReferences` (with the visited test) answers
+on every index whatsoever — cyclic or not, whatever its history. -/
+theorem find_refs_terminates (ix : Index) (id : Id) (typed : List Nat) :
+    ∃ L, findReferences ix id typed = some L := by
+  obtain ⟨L, h, _⟩ := findReferences_spec ix id typed
+  exact ⟨L, h⟩
+
+/-- **find_refs_spec.** If the index is the inverse of the current features (which `refs_index_inv`
+maintains), the world-level `FindReferences(id, typed…)` returns each feature that references `id`
+directly or through a chain of current features, of a requested type, exactly once — on every
+reference graph, including self references and cycles. -/
+theorem find_refs_spec (ix : Index) (fs : List Feature) (hi : Inv ix fs) (id : Id) (typed : List Nat) :
+    ∃ L, basicFind fs ix id typed = some L ∧ L.Nodup ∧
+      ∀ s, s ∈ L ↔ (ReachPlus fs id s ∧ typeOk typed s = true) :=
+  basicFind_spec hi id typed
+
+/-- the two composed: any disciplined history, then any query -/
+theorem history_then_query (ops : List Op) (hd : Disciplined [] ops) (id : Id) (typed : List Nat) :
+    ∃ ix fs L, run ([], []) ops = some (ix, fs) ∧ basicFind fs ix id typed = some L ∧ L.Nodup ∧
+      ∀ s, s ∈ L ↔ (ReachPlus fs id s ∧ typeOk typed s = true) := by
+  obtain ⟨ix, fs, h, hi, _⟩ := run_inv ops [] [] Inv_empty (by intro g hg; cases hg) hd
+  obtain ⟨L, h1, h2, h3⟩ := basicFind_spec hi id typed
+  exact ⟨ix, fs, L, h, h1, h2, h3⟩
+
+/-- **overlay_find_refs_spec.** `MutableOverlayWorld.FindReferences` over a basic base world, when the
+overlay's index is the inverse of the overlay's features and every base feature that references an
+overlay ID has been copied into the overlay (what `AddFeature` does): the answer is exactly the
+referrers among the CURRENT features of the layered world, each once. -/
+theorem overlay_find_refs_spec (o : Overlay) (hi : Inv o.ix o.feats) (hup : UpClosed o) (id : Id) (typed : List Nat) :
+    ∃ L, o.find id typed = some L ∧ L.Nodup ∧
+      ∀ s, s ∈ L ↔ (ReachPlus o.merged id s ∧ typeOk typed s = true) :=
+  overlay_find_spec o hi hup id typed
+
+/-! ### concrete witnesses -/
+
+def r1 : Id := (3, 1)
+def r2 : Id := (3, 2)
+def p1 : Id := (0, 1)
+def p2 : Id := (0, 2)
+def p3 : Id := (0, 3)
+def w10 : Id := (1, 10)
+
+/-- relations 1 ∋ 2 and 2 ∋ 1 -/
+def cyc : Index := addFeature (addFeature [] ⟨r1, [r2]⟩) ⟨r2, [r1]⟩
+
+/-- the repaired code answers on the cycle … -/
+example : findReferences cyc r1 [] = some [r1, r2] := by decide
+
+/-- … and the hypotheses of `find_refs_spec` hold for it (non-vacuity). -/
+example : Inv cyc [⟨r2, [r1]⟩, ⟨r1, [r2]⟩] := Inv_add (Inv_add Inv_empty _) _
+
+theorem dfsOld_cyc_none : ∀ (fuel : Nat) (stack : List (Id × Ref)) (vis : List Key), stack ≠ [] →
+    (∀ p ∈ stack, p.2.src = r1 ∨ p.2.src = r2) → dfsOld cyc fuel stack vis = none := by
+  intro fuel
+  induction fuel with
+  | zero =>
+    intro stack vis hne _
+    cases stack with
+    | nil => exact absurd rfl hne
+    | cons p rest => rfl
+  | succ fuel ih =>
+    intro stack vis _ hall
+    cases stack with
+    | nil => contradiction
+    | cons p rest =>
+      obtain ⟨t, r⟩ := p
+      simp only [dfsOld]
+      have hr := hall (t, r) List.mem_cons_self
+      have hw1 : work cyc r1 = [(r1, ⟨r2, none⟩)] := by decide
+      have hw2 : work cyc r2 = [(r2, ⟨r1, none⟩)] := by decide
+      apply ih
+      · rcases hr with hr | hr <;> simp only at hr <;> rw [hr] <;> simp [hw1, hw2]
+      · intro q hq
+        rcases List.mem_append.mp hq with hq | hq
+        · rcases hr with hr | hr <;> simp only at hr <;> rw [hr] at hq
+          · rw [hw1] at hq; simp only [List.mem_singleton] at hq; subst hq; exact Or.inr rfl
+          · rw [hw2] at hq; simp only [List.mem_singleton] at hq; subst hq; exact Or.inl rfl
+        · exact hall q (List.mem_cons_of_mem _ hq)
+
+/-- **cycle_diverges.** The code before `fixes/C15-find-references-visited.patch` (no visited test):
+on relations 1 ∋ 2, 2 ∋ 1 no amount of fuel makes `findReferences` return — the real code died with
+a fatal stack overflow. -/
+theorem cycle_diverges : ∀ fuel, findReferencesOld fuel cyc r1 [] = none := by
+  intro fuel
+  have hw1 : work cyc r1 = [(r1, ⟨r2, none⟩)] := by decide
+  simp only [findReferencesOld, hw1]
+  rw [dfsOld_cyc_none fuel _ [] (by simp) (by intro p hp; simp only [List.mem_singleton] at hp; subst hp; exact Or.inr rfl)]
+
+/-- base: points 1,2,3 and path 10 = [1,2]; the overlay replaced path 10 by [2,3]. -/
+def staleWorld : Overlay :=
+  { base := [⟨p1, []⟩, ⟨p2, []⟩, ⟨p3, []⟩, ⟨w10, [p1, p2]⟩],
+    feats := [⟨w10, [p2, p3]⟩],
+    ix := addFeature [] ⟨w10, [p2, p3]⟩ }
+
+/-- **stale_base_referrer_counterexample.** The code before
+`fixes/C15-overlay-skip-shadowed-base-referrers.patch` returns path 10 as a referrer of point 1 although
+no current feature references point 1; the repaired code returns nothing. -/
+theorem stale_base_referrer_counterexample :
+    staleWorld.findStale p1 [] = some [w10] ∧ referrers staleWorld.merged p1 = some [] ∧
+    staleWorld.find p1 [] = some [] := by decide
+
+/-- the hypotheses of `overlay_find_refs_spec` hold for that world (non-vacuity) -/
+example : Inv staleWorld.ix staleWorld.feats ∧ UpClosed staleWorld :=
+  ⟨Inv_add Inv_empty _, by unfold UpClosed; decide⟩
+
+end B6.Props.C15
